@@ -11,6 +11,10 @@ TECH = ('explicit TLA+ specification model-checked with TLC; TLC-emitted '
 
 # property id -> (design_ref, level text, level note, technique suffix)
 CLAIMED = {
+    'C07': ('5/C07, 3.6',
+            'spec/NcStore.tla models the fill-value mechanism (disk fill precedence, data fill, netCDF4 auto-masking) - NcStore_MC checks that the mask survives for all 27 combinations of missing_value/fill_value/_FillValue under the specified data fill and exhibits the losing combination under the attribute-first deviation - and defines StoreDiff, the field-by-field meaning of "reproduces" (dimension names/order/lengths/unlimited flags, global attributes, variable names/order/dtype/dimension tuples, masks, bit-identical unmasked values, variable attributes modulo _FillValue on masked variables). Generated files (11 dtypes incl. char, unsigned and 64-bit; unmasked/partly/fully masked; every fill-attribute combination; scalar/1-D/2-D/3-D; unlimited none/first/not first; str/int/float/array attributes; float payloads with -0.0 and denormals) are saved in all four flavours with and without compression, closed, reopened with format named and by auto-detection (one process per case) and validated by NcStore_Trace; a save may raise only when a dtype is not representable in the flavour.',
+            'Trusted: the exact (hex) projection, netCDF4/HDF5 themselves. Excluded by construction: unmasked values equal to a fill value, unlimited dimensions used by no variable (netCDF stores no length for them), bool attributes (not a netCDF type). HDF5 internals / compression ratios out of reach.',
+            'fill-mechanism model checking + save/reopen traces validated'),
     'C19': ('5/C19, 3.8',
             'spec/Icartt.tla states the FFI-1001 line layout as a writer automaton (role and token count of every line), the reader role assignment from line index and counts, and the header arithmetic; Icartt_MC checks declared = actual counts and reader/writer role agreement for every structure (1-4 variables, 0-4 comment attributes, 1-4 records) and emits them; for each structure generated files (names, units, missing codes -999/-9999/-99999/-888, masks, magnitudes 1e-30..1e25, negative, zero; plus larger random structures) are written with ncf2ffi1001, tokenised, read with ffi1001() and with pncopen() auto-detection, written and read a second time; Icartt_Trace checks the layout of the text, the declared header/variable counts, and equality of names, order, units, missing codes, masks and %.6e values, and that the second cycle is a fixpoint.',
             'Trusted: line tokenisation (split on commas), %.6e rendering as the seven-significant-digit comparison. Comment attribute values are single-line strings (a value containing a newline breaks the declared header count: not exercised, noted in DESIGN.md). LLOD/ULOD flag handling not covered.',
